@@ -8,7 +8,7 @@
    sat-level statement ("Index::find(sat) returns the same satpoint") is only tied by correspondence and by
    the oracle (see props/C03.json). *)
 From OrdV Require Import Base.Prelude Generated Index.Inscr Proofs.Inscr_tables Proofs.Inscr_proofs
-  Proofs.Inscr_c06 Proofs.Inscr_c04 Proofs.Inscr_c03.
+  Proofs.Inscr_c06 Proofs.Inscr_c04 Proofs.Inscr_c03 Proofs.Inscr_sats.
 From Coq Require Import Permutation.
 
 (* (1) old inscriptions of an input keep their place inside it: offset in the transaction = value of the
@@ -89,6 +89,23 @@ Theorem C03_old_burned : forall h rg f sp b b' seq,
   exists e, tget N.eqb seq (s_entries (b_st b')) = Some e /\ has CHARM_BURNED (i_charms e) = true.
 Proof. intros h rg f sp b b' seq Ho H. eapply old_burned; eauto. Qed.
 
+(* (8) the same first-in-first-out rule at the sat level, per transaction (sat index on): index_transaction_sats
+   gives output k sat ranges of total size value_k, and the sat that calculate_sat reads at offset g of the
+   input ranges (start_k <= g < start_k + value_k) is the sat at offset g - start_k of output k's ranges, i.e.
+   where Index::find looks for it; beyond the outputs, the leftover ranges (fees, carried to the coinbase
+   inputs / lost ranges) continue at offset g - total output value. *)
+Theorem C03_sats_fifo : forall outs rs per_out lft,
+  split_sats outs rs = Ok (per_out, lft) ->
+  (forall k o, nth_error outs k = Some o ->
+     exists m, nth_error per_out k = Some m /\ ranges_size m = o_value o /\
+       forall g, out_start 0 outs k <= g < out_start 0 outs k + o_value o ->
+         calc_sat_in m 0 (g - out_start 0 outs k) = calc_sat_in rs 0 g) /\
+  (forall g, sum_values outs <= g -> calc_sat_in lft 0 (g - sum_values outs) = calc_sat_in rs 0 g).
+Proof.
+  intros outs rs per_out lft H. destruct (split_sats_spec _ _ _ _ H) as [A B]. split; auto.
+  intros k o Hk. destruct (A k o Hk) as (m & M1 & M2 & M3). exists m. unfold out_start. rewrite !N.add_0_l. auto.
+Qed.
+
 (* Non-vacuity of (3): offsets 5, 0, 12, 30 over outputs of 10 and 15 (the second an OP_RETURN): 0 and 5 land
    in output 0, 12 in output 1 at offset 2, 30 is left over. *)
 Example C03_nonvacuous :
@@ -105,3 +122,4 @@ Print Assumptions C03_fee_offsets.
 Print Assumptions C03_lost_offsets.
 Print Assumptions C03_new_inscription.
 Print Assumptions C03_old_burned.
+Print Assumptions C03_sats_fifo.
